@@ -40,7 +40,7 @@ def mutate(rnd, root, outside):
     entries = []
     for dp, ds, fs_ in os.walk(root):
         for n in ds + fs_: entries.append(os.path.join(dp, n))
-    op = rnd.choice(['create', 'create-before', 'modify', 'rewrite-same-size', 'chmod', 'delete', 'rename', 'file2dir', 'dir2link', 'touch', 'outside'])
+    op = rnd.choice(['create', 'create-before', 'modify', 'rewrite-same-size', 'rewrite-keep-mtime', 'rewrite-keep-mtime', 'chmod', 'delete', 'rename', 'file2dir', 'dir2link', 'touch', 'outside'])
     if op == 'outside':
         # change only what a symlink points to, outside the tree: must not change the hash
         if os.path.isdir(outside): shutil.rmtree(outside); open(outside, 'w').close()
@@ -61,6 +61,13 @@ def mutate(rnd, root, outside):
             c = open(e, 'rb').read()
             if c:
                 with open(e, 'wb') as f: f.write(bytes([(c[0] + 1) % 256]) + c[1:])
+        elif op == 'rewrite-keep-mtime' and os.path.isfile(e) and not os.path.islink(e):
+            # in place, same size, old mtime restored (cp -p / rsync -t): only ctime tells
+            c = open(e, 'rb').read(); st_ = os.stat(e)
+            if c:
+                import time as _t; _t.sleep(0.002)
+                with open(e, 'r+b') as f: f.write(bytes([(c[0] + 1) % 256]) + c[1:])
+                os.utime(e, ns=(st_.st_atime_ns, st_.st_mtime_ns))
         elif op == 'chmod' and not os.path.islink(e): os.chmod(e, rnd.choice([0o644, 0o755, 0o700, 0o600]))
         elif op == 'delete':
             if os.path.isdir(e) and not os.path.islink(e): shutil.rmtree(e)
